@@ -1,10 +1,11 @@
 #!/bin/bash
 # usage: tools_seeds.sh "<seeds>" [<Cxx> ...] : run quick checks under several seeds, list anything that is not a clean pass
 seeds="$1"; shift
-props="${@:-C01 C02 C03 C04 C05 C06 C07 C08 C09 C10 C11 C12 C14 C15 C16 C18 C19}"
+props="${@:-C01 C02 C03 C04 C05 C06 C07 C08 C09 C10 C11 C12 C13 C14 C15 C16 C17 C18 C19 C20}"
 cd /verif
 for s in $seeds; do for p in $props; do
+  t0=$(date +%s)
   out=$(VERIF_SEED=$s timeout 1800 ./verif check $p --tier quick 2>&1); rc=$?
-  echo "seed=$s $p rc=$rc viol=$(echo "$out" | grep -c VIOLATION) mach=$(echo "$out" | grep -c MACHINERY)"
+  echo "seed=$s $p rc=$rc $(( $(date +%s)-t0 ))s viol=$(echo "$out" | grep -c VIOLATION) mach=$(echo "$out" | grep -c MACHINERY)"
   [ $rc -ne 0 ] && echo "$out" | grep -E "VIOLATION|MACHINERY" | cut -c1-300 | head -5
 done; done
